@@ -121,7 +121,8 @@ Section WithV.
        den_k hs' ks' (s, t, v) = if s <? j then den_k hs ks (s, t, v) else den_k ho ko2 (0, t, v)) ->
     inv_post hs' ks'.
   Proof.
-    intros X Hgs Hgo Hndo Hpre Hr H Hg' Hden. destruct X.
+    intros X Hgs Hgo Hndo Hpre Hr H Hg' Hden.
+    destruct X as [sx_hs0 sx_hs'0 sx_ho0 sx_j0 sx_d0 sx_do0 sx_d'0 sx_oko0 sx_ok'0 sx_base0 sx_sd0 sx_sdo0 sx_sd'0].
     pose proof (dims_pos hs' _ _ _ sx_hs'0 sx_d'0) as [_ [HT HV]].
     assert (Hoko : class_ok (shape hs) (oc_of ko2) = true).
     { destruct ko2 as [[c vs]|]; cbn [oc_of]; [rewrite <- sx_oko0; apply Hgo | apply class_ok_const; exact sx_hs0]. }
